@@ -448,16 +448,33 @@ def r19b(R):
             it = n.generators[0].iter
     if comp is None:
         raise AnalysisError('IoParser.printf: field filter not found')
-    cond = None
-    for n in walk_own(vp.node):
-        if isinstance(n, ast.If) and any(
-                isinstance(x, ast.Subscript) and isinstance(x.ctx, ast.Store)
-                for b in n.body for x in ast.walk(b)) \
-                and ('isdecimal' in norm(n.test) or 'len(' in norm(n.test)
-                     or ' is not None and ' in norm(n.test)) and cond is None:
-            cond = n.test
-    if cond is None:
+    # run time: the condition under which a field is entered in the dict of
+    # named values = the tests every subscript store depends on (any nesting
+    # of if / and, either polarity)
+    from ..cfg import reachable_without_edges
+    vcfg = A.cfg(vp)
+    stores = [n for n in vcfg.nodes if n.kind == 'stmt' and isinstance(n.ast, ast.Assign)
+              and isinstance(n.ast.targets[0], ast.Subscript)]
+    if not stores:
+        raise AnalysisError('VmIo._printf: named-field stores not found')
+    common = None
+    for s in stores:
+        facts = []
+        for t in vcfg.nodes:
+            if t.kind != 'cond':
+                continue
+            for lab in (True, False):
+                if s.id not in reachable_without_edges(vcfg, vcfg.entry, {(t.id, lab)}):
+                    facts.append((t.id, lab))
+        common = set(facts) if common is None else common & set(facts)
+    terms = []
+    for tid, lab in sorted(common or ()):
+        e = vcfg.nodes[tid].ast
+        if vcfg.nodes[tid].kind == 'cond' and isinstance(e, ast.expr):
+            terms.append(e if lab else ast.UnaryOp(ast.Not(), e))
+    if not terms:
         raise AnalysisError('VmIo._printf: named-field test not found')
+    cond = terms[0] if len(terms) == 1 else ast.BoolOp(ast.And(), terms)
     # names: the comprehension variable's [1] at compile time; at run time
     # the local assigned from <loop variable>[1]
     gen_var = None
